@@ -209,7 +209,7 @@ class Val:
         if self.mapping:
             for i in self.mapping.values():
                 out |= i.all_aliases()
-        if self.elem is not None:
+        if self.elem is not None and self.mapping is None:
             out |= self.elem.all_aliases()
         return out
 
@@ -222,7 +222,7 @@ class Val:
         if self.mapping:
             for i in self.mapping.values():
                 out |= i.all_alias_births()
-        if self.elem is not None:
+        if self.elem is not None and self.mapping is None:
             out |= self.elem.all_alias_births()
         return out
 
